@@ -1,8 +1,9 @@
 //! C17 correspondence + property oracle: the disk-backed B+ tree (`vibesql_storage::btree::BTreeIndex`)
 //! against an ordered multimap (`BTreeMap<i64, Vec<u64>>`) and against the Coq model (Store/BTree.v).
 //!
-//! Every case is an index (empty, or bulk-loaded from sorted entries) over a `PageManager` on a real file
-//! (`NativeStorage` in a scratch directory), with a key schema `[VARCHAR(n)]` chosen so that
+//! Every case is an index (empty, or bulk-loaded from sorted entries) over a `PageManager` (one case in
+//! eight on a real file through `NativeStorage` in a scratch directory, the others on an in-memory
+//! `StorageBackend` because every page write of a native file is fsynced), with a key schema `[VARCHAR(n)]` chosen so that
 //! `calculate_degree` gives 5..8, and a history of insert / delete / delete_specific / lookup /
 //! multi_lookup / range_scan (all bound kinds) / re-open (`BTreeIndex::load`).  Observations: every
 //! answer, `height()`, and after every mutation a dump of the pages reachable from the root (parsed here
@@ -19,10 +20,61 @@ use vh::rng::Rng;
 use vibesql_storage::btree::BTreeIndex;
 use vibesql_storage::page::{PageManager, PAGE_SIZE};
 use vibesql_storage::persistence::binary::value::read_sql_value;
-use vibesql_storage::NativeStorage;
+use vibesql_storage::{NativeStorage, StorageBackend, StorageError, StorageFile};
 use vibesql_types::{DataType, SqlValue};
 
 type Key = Vec<SqlValue>;
+
+/// In-memory page file (public `StorageBackend`/`StorageFile` traits): most cases run on it because
+/// `PageManager::write_page` fsyncs every page on a `NativeStorage` file; one case in eight still uses
+/// a real file.
+struct MemFile(Vec<u8>);
+impl StorageFile for MemFile {
+    fn read_at(&mut self, offset: u64, buf: &mut [u8]) -> Result<usize, StorageError> {
+        let off = offset as usize;
+        if off >= self.0.len() {
+            return Ok(0);
+        }
+        let n = std::cmp::min(buf.len(), self.0.len() - off);
+        buf[..n].copy_from_slice(&self.0[off..off + n]);
+        Ok(n)
+    }
+    fn write_at(&mut self, offset: u64, buf: &[u8]) -> Result<usize, StorageError> {
+        let off = offset as usize;
+        if self.0.len() < off + buf.len() {
+            self.0.resize(off + buf.len(), 0);
+        }
+        self.0[off..off + buf.len()].copy_from_slice(buf);
+        Ok(buf.len())
+    }
+    fn sync_all(&mut self) -> Result<(), StorageError> {
+        Ok(())
+    }
+    fn sync_data(&mut self) -> Result<(), StorageError> {
+        Ok(())
+    }
+    fn size(&self) -> Result<u64, StorageError> {
+        Ok(self.0.len() as u64)
+    }
+}
+struct MemStorage;
+impl StorageBackend for MemStorage {
+    fn create_file(&self, _path: &str) -> Result<Box<dyn StorageFile>, StorageError> {
+        Ok(Box::new(MemFile(Vec::new())))
+    }
+    fn open_file(&self, _path: &str) -> Result<Box<dyn StorageFile>, StorageError> {
+        Ok(Box::new(MemFile(Vec::new())))
+    }
+    fn delete_file(&self, _path: &str) -> Result<(), StorageError> {
+        Ok(())
+    }
+    fn file_exists(&self, _path: &str) -> bool {
+        false
+    }
+    fn file_size(&self, _path: &str) -> Result<u64, StorageError> {
+        Ok(0)
+    }
+}
 
 #[derive(Clone, Debug)]
 enum Op {
@@ -323,6 +375,88 @@ fn structure_violations(root: &DNode, height: usize, expected: &BTreeMap<i64, Ve
     v
 }
 
+
+// ---------- narrow classifier for the page-overflow class ----------
+fn varint_len(mut n: usize) -> usize {
+    let mut l = 1;
+    while n >= 128 {
+        n >>= 7;
+        l += 1;
+    }
+    l
+}
+fn leaf_bytes(entries: &[(i64, Vec<u64>)], ksz: i64) -> usize {
+    3 + entries.iter().map(|(_, rs)| ksz as usize + varint_len(rs.len()) + 8 * rs.len()).sum::<usize>() + 8
+}
+/// index (in tree order) of the leaf that find_leaf_path reaches for `k`
+fn route(n: &DNode, k: i64, base: usize) -> usize {
+    match n {
+        DNode::Leaf { .. } => base,
+        DNode::Node { keys, children, .. } => {
+            let i = keys.iter().filter(|x| **x <= k).count().min(children.len().saturating_sub(1));
+            let mut b = base;
+            for c in &children[..i] {
+                let mut v = Vec::new();
+                leaves(c, 0, &mut v);
+                b += v.len();
+            }
+            route(&children[i], k, b)
+        }
+    }
+}
+/// does some leaf that bulk_load would build (consecutive groups of max(3d/4,1) keys) exceed a page?
+fn bulk_overflows(m: &BTreeMap<i64, Vec<u64>>, deg: usize, ksz: i64) -> bool {
+    let cap = std::cmp::max(deg * 3 / 4, 1);
+    let all: Vec<(i64, Vec<u64>)> = m.iter().map(|(k, v)| (*k, v.clone())).collect();
+    all.chunks(cap).any(|c| leaf_bytes(c, ksz) > PAGE_SIZE)
+}
+/// would the operation make a leaf (or the merge of two adjacent leaves) larger than a page?
+fn explains_overflow(d: &DNode, op: &Op, ksz: i64) -> bool {
+    let mut ls = Vec::new();
+    leaves(d, 0, &mut ls);
+    let ent = |i: usize| -> Vec<(i64, Vec<u64>)> {
+        match ls.get(i).map(|x| x.0) {
+            Some(DNode::Leaf { entries, .. }) => entries.clone(),
+            _ => Vec::new(),
+        }
+    };
+    match op {
+        Op::Insert(k, r) => {
+            let mut e = ent(route(d, *k, 0));
+            match e.iter_mut().find(|x| x.0 == *k) {
+                Some(x) => x.1.push(*r),
+                None => e.push((*k, vec![*r])),
+            }
+            leaf_bytes(&e, ksz) > PAGE_SIZE
+        }
+        Op::Delete(k) | Op::DeleteOne(k, _) => {
+            let i = route(d, *k, 0);
+            let mut e = ent(i);
+            match op {
+                Op::Delete(_) => e.retain(|x| x.0 != *k),
+                Op::DeleteOne(_, r) => {
+                    for x in e.iter_mut() {
+                        if x.0 == *k {
+                            if let Some(p) = x.1.iter().position(|y| y == r) {
+                                x.1.remove(p);
+                            }
+                        }
+                    }
+                    e.retain(|x| !x.1.is_empty());
+                }
+                _ => {}
+            }
+            let with = |j: usize| -> bool {
+                let mut m = ent(j);
+                m.extend(e.clone());
+                leaf_bytes(&m, ksz) > PAGE_SIZE
+            };
+            (i > 0 && with(i - 1)) || with(i + 1)
+        }
+        _ => false,
+    }
+}
+
 // ---------- running one case ----------
 struct CaseOut {
     idx: u64,
@@ -467,8 +601,10 @@ fn gen_case(r: &mut Rng, deg: usize, thorough: bool) -> (Option<Vec<(i64, u64)>>
         }
         v
     };
-    let (init, kind): (Option<Vec<(i64, u64)>>, &'static str) = if kind_roll < 30 {
+    let (init, kind): (Option<Vec<(i64, u64)>>, &'static str) = if kind_roll < 24 {
         (None, "empty-random")
+    } else if kind_roll < 30 {
+        (None, "empty-big-drain")
     } else if kind_roll < 38 {
         (None, "empty-sequential")
     } else if kind_roll < 45 {
@@ -566,6 +702,54 @@ fn gen_case(r: &mut Rng, deg: usize, thorough: bool) -> (Option<Vec<(i64, u64)>>
             ops.push(Op::Range(None, None, true, true));
             ops.push(Op::Insert(3, next_row));
         }
+        "empty-big-drain" => {
+            // a tall tree, then every key deleted in random order: borrows and merges at every level,
+            // several root collapses
+            let n = r.range(50, 110);
+            let mut order: Vec<i64> = (0..n).collect();
+            for i in (1..order.len()).rev() {
+                let j = r.below(i as u64 + 1) as usize;
+                order.swap(i, j);
+            }
+            for k in &order {
+                let o = Op::Insert(*k, next_row);
+                next_row += 1;
+                apply(&o, &mut shadow);
+                ops.push(o);
+                if r.chance(1, 4) {
+                    let o2 = Op::Insert(*k, next_row);
+                    next_row += 1;
+                    apply(&o2, &mut shadow);
+                    ops.push(o2);
+                }
+            }
+            ops.push(Op::Range(None, None, true, true));
+            for i in (1..order.len()).rev() {
+                let j = r.below(i as u64 + 1) as usize;
+                order.swap(i, j);
+            }
+            for k in &order {
+                let o = if r.chance(1, 4) {
+                    match shadow.get(k) {
+                        Some(rs) => Op::DeleteOne(*k, *r.pick(rs)),
+                        None => Op::Delete(*k),
+                    }
+                } else {
+                    Op::Delete(*k)
+                };
+                apply(&o, &mut shadow);
+                ops.push(o);
+                if r.chance(1, 8) {
+                    ops.push(read_op(r, &shadow));
+                }
+                if r.chance(1, 40) {
+                    ops.push(Op::Reload);
+                }
+            }
+            ops.push(Op::Range(None, None, true, true));
+            ops.push(Op::Insert(5, next_row));
+            ops.push(Op::Lookup(5));
+        }
         "empty-overflow" => {
             let k = 1;
             ops.push(Op::Insert(0, next_row));
@@ -656,7 +840,10 @@ fn gen_case(r: &mut Rng, deg: usize, thorough: bool) -> (Option<Vec<(i64, u64)>>
     (init, ops, kind)
 }
 
-fn run_case(idx: u64, seed: u64, thorough: bool, storage: &Arc<NativeStorage>, probes: &Probes) -> CaseOut {
+fn run_case(idx: u64, seed: u64, thorough: bool, native: &Arc<NativeStorage>, probes: &Probes) -> CaseOut {
+    let on_disk = idx % 8 == 0;
+    let storage: Arc<dyn StorageBackend> = if on_disk { native.clone() } else { Arc::new(MemStorage) };
+    let storage = &storage;
     let mut r = Rng::new(seed, &format!("c17/case/{}", idx));
     let (varl, deg_expected) = *r.pick(&DEGREES);
     let cfg = Cfg { varl, width: *r.pick(&[5usize, 5, 9, 30]) };
@@ -667,7 +854,7 @@ fn run_case(idx: u64, seed: u64, thorough: bool, storage: &Arc<NativeStorage>, p
         coq: String::new(),
         case_json: Value::Null,
         findings: Vec::new(),
-        counters: vec![format!("init_{}", kind)],
+        counters: vec![format!("init_{}", kind), if on_disk { "storage_native_file".to_string() } else { "storage_memory_file".to_string() }],
         evals: 0,
         nontrivial: false,
         canonical: String::new(),
@@ -688,7 +875,6 @@ fn run_case(idx: u64, seed: u64, thorough: bool, storage: &Arc<NativeStorage>, p
             oracle.entry(*k).or_default().push(*rr);
         }
     }
-    let heavy = |m: &BTreeMap<i64, Vec<u64>>| m.values().any(|v| v.len() >= 60);
     let (init_obs, mut index): (Ans, Option<BTreeIndex>) = match built {
         Ok(Ok(i)) => (Ans::Unit, Some(i)),
         Ok(Err(e)) => (Ans::Err(format!("{:?}", e)), None),
@@ -774,7 +960,7 @@ fn run_case(idx: u64, seed: u64, thorough: bool, storage: &Arc<NativeStorage>, p
                 if diverged && first_divergence.is_none() {
                     let class = match &a {
                         Ans::Err(_) => {
-                            if heavy(&oracle) {
+                            if final_dump.as_ref().map(|d| explains_overflow(&d.0, op, cfg.ksz())).unwrap_or(false) {
                                 "rowid-list-page-overflow"
                             } else {
                                 "unexpected-error"
@@ -852,7 +1038,7 @@ fn run_case(idx: u64, seed: u64, thorough: bool, storage: &Arc<NativeStorage>, p
         (a, _) => {
             // construction failed
             let class = match a {
-                Ans::Err(_) if heavy(&oracle) => "rowid-list-page-overflow",
+                Ans::Err(_) if bulk_overflows(&oracle, deg_expected, cfg.ksz()) => "rowid-list-page-overflow",
                 Ans::Err(_) => "unexpected-error",
                 _ => "panic",
             };
@@ -863,7 +1049,7 @@ fn run_case(idx: u64, seed: u64, thorough: bool, storage: &Arc<NativeStorage>, p
         out.findings.push(fd);
     }
     drop(index);
-    let _ = storage_delete(storage, &fname);
+    let _ = storage.delete_file(&fname);
     let hmax = heights.iter().copied().max().unwrap_or(0);
     let hmin = heights.iter().copied().min().unwrap_or(0);
     out.counters.push(format!("degree_{}", degree));
@@ -927,7 +1113,6 @@ fn short(a: &Ans) -> Ans {
 }
 
 fn storage_delete(storage: &Arc<NativeStorage>, name: &str) -> Result<(), ()> {
-    use vibesql_storage::StorageBackend;
     storage.delete_file(name).map_err(|_| ())
 }
 
@@ -956,14 +1141,14 @@ fn main() {
     let args = parse_args();
     quiet_panics();
     let mut sum = Summary::default();
-    sum.nontrivial_rule = "a case is one index (empty or bulk-loaded) with a history of 40-140 operations; distinct = distinct (schema, initial entries, history); non-trivial = the tree had height >= 2 at some point (a split, or a bulk-loaded multi-level tree) and at least one lookup/scan returned rows".into();
+    sum.nontrivial_rule = "a case is one index (empty or bulk-loaded) with a history of 40-300 operations; distinct = distinct (schema, initial entries, history); non-trivial = the tree had height >= 2 at some point (a split, or a bulk-loaded multi-level tree) and at least one lookup/scan returned rows".into();
     let mut log = CaseLog::new(&args);
     let tmp = args.out.join("c17tmp");
     let _ = std::fs::remove_dir_all(&tmp);
     let storage = Arc::new(NativeStorage::new(&tmp).expect("scratch storage"));
     let probes = probe(&storage);
     sum.notes.push(format!("probes: bulk_load separator rule repaired = {}, single-child rebalance guard present = {}", probes.sep_fixed, probes.guard));
-    let ncases: u64 = args.extra.get("cases").and_then(|v| v.parse().ok()).unwrap_or(if args.thorough { 6000 } else { 1200 });
+    let ncases: u64 = args.extra.get("cases").and_then(|v| v.parse().ok()).unwrap_or(if args.thorough { 5000 } else { 1500 });
     let nshards: u64 = if args.thorough { 48 } else { 16 };
     let wanted: Vec<u64> = match &args.only {
         Some(ids) => {
